@@ -25,8 +25,8 @@ import sys
 from vp import common
 from vp.common import cz
 
-IMPORTS = '''From Coq Require Import List ZArith NArith.
-From VV Require Import Lib.Base C14.Model.
+IMPORTS = '''From Coq Require Import List ZArith NArith Uint63.
+From VV Require Import Lib.Base C14.Model C14.Pack.
 Import ListNotations.
 Open Scope N_scope.
 '''
@@ -138,7 +138,13 @@ def canon(obj):
 
 
 def cbytes(data):
-    return '[' + ';'.join(str(c) for c in data) + ']'
+    '''byte string as a Coq term: short ones as a list of numerals, longer ones
+    packed 7 bytes per primitive integer (C14/Pack.v)'''
+    data = bytes(data)
+    if len(data) <= 7:
+        return '[' + ';'.join(str(c) for c in data) + ']'
+    words = [str(int.from_bytes(data[k:k + 7], 'little')) for k in range(0, len(data), 7)]
+    return f'(up {len(data)} [' + ';'.join(words) + ']%uint63)'
 
 
 def coqv(cv):
@@ -395,7 +401,7 @@ def offsets_for(rng, n, limit):
     if n <= limit:
         return list(range(n)), []
     offs = sorted(set([0, 1, 2, 3, 10, 11, 12, n - 1, n - 2] +
-                      [rng.randrange(n) for _ in range(limit)]))
+                      [rng.randrange(n) for _ in range(min(limit, 250))]))
     return offs, offs
 
 
@@ -449,7 +455,7 @@ def run_dec(ctx, mods, case, out):
             ctx.oracle_failure(f'from_file does not return the pickled environment '
                                f':: (protocol {case["proto"]}, {case["variant"]}) '
                                f'{json.dumps(case)[:300]}', case, key='roundtrip-variant')
-    offs, explicit = offsets_for(ctx.rng, len(data), case.get('limit', 700))
+    offs, explicit = offsets_for(ctx.rng, len(data), case.get('limit', 400 if ctx.tier == 'quick' else 700))
     eofs, bad = prefix_classes(ctx, data, offs, case)
     feed_prefixes(ctx, mods, data, offs, case, path)
     for k, cls in bad:
@@ -472,7 +478,7 @@ def run_scan(ctx, mods, case, out):
         data = pickle.dumps(obj, protocol=case['proto'])
     except Exception:  # noqa  (some payloads need protocol >= 2)
         return False
-    offs, explicit = offsets_for(ctx.rng, len(data), case.get('limit', 700))
+    offs, explicit = offsets_for(ctx.rng, len(data), case.get('limit', 400 if ctx.tier == 'quick' else 700))
     eofs, bad = prefix_classes(ctx, data, offs, case)
     for k, cls in bad:
         ctx.mismatch(f'pickle.loads of the first {k} of {len(data)} bytes gives {cls}, the model says '
@@ -883,7 +889,7 @@ def gen_cases(ctx):
         ['empty', 't0', 0.0, 0], ['read', ['t0', 't1']],
         ['cut', 't1', 0.5, 0], ['read', ['t0', 't1']]]})
     # --- random environments, protocols and framings, every truncation offset
-    nenv = 110 if quick else 1500
+    nenv = 100 if quick else 1200
     for _ in range(nenv):
         spec = gen_env_spec(rng)
         proto, variant = rng.choice([(4, 'plain'), (4, 'plain'), (4, 'noframe'), (4, 'noframe'),
@@ -905,7 +911,7 @@ def gen_cases(ctx):
     for i in range(nfs):
         cases.append(gen_fs_case(rng, i + 1))
     # --- corrupted files (oracle only)
-    ncor = 1500 if quick else 30000
+    ncor = 1500 if quick else 20000
     for _ in range(ncor // 10):
         spec = gen_env_spec(rng, rng.choice([1, 1, 2]))
         cases.append({'kind': 'corruptgen', 'env': spec, 'n': 10, 'seed': rng.getrandbits(32)})
@@ -968,7 +974,7 @@ def run(ctx):
     ctx.rule = ('environments of 1-8 tasks with payloads over {None,bool,int,float,str,bytes,list,tuple,'
                 'dict,TaskStatus,Env}, pickled with protocols 3/4/5, framed, unframed and optimised, '
                 'each compared with the model decoder on the value and at EVERY truncation offset '
-                '(sampled offsets for pickles > 700 bytes); opcode-stream comparison at every offset for '
+                '(250 sampled offsets for pickles > 400 bytes quick / 700 thorough); opcode-stream comparison at every offset for '
                 'protocols 0-2 and payloads outside the universe; write/crash/cut/delete/garbage/read '
                 'histories through the real write_env/read_env; corrupted files through the real '
                 'from_file.  Non-trivial: an environment with at least one entry / a history with a '
